@@ -37,7 +37,8 @@
 (***************************************************************************)
 EXTENDS Schema
 
-CONSTANT AsImplemented
+CONSTANTS AsImplemented,   \* FALSE: the view the property requires; TRUE: llir/llvm as it is
+          MaxCalls        \* bound on the number of API calls per history
 
 VARIABLES stage,   \* "init" "kind" "case" "placed" then API calls
           k,       \* index of the kind
@@ -49,7 +50,6 @@ VARIABLES stage,   \* "init" "kind" "case" "placed" then API calls
           steps    \* number of API calls so far
 vars == <<stage, k, c, vals, cache, out, last, steps>>
 
-MaxCalls == 3
 N == Len(c.ops)
 Other(i) == "o" \o ToString(i)
 
